@@ -42,6 +42,7 @@ func runC19(l *core.Ledger) {
 	c19S1(l, r)
 	c19S2(l, r)
 	c19S3(l, r)
+	c19S10(l, r)
 	c19S5(l, r)
 	c19S6(l, r)
 	c19S8S9(l, r)
@@ -358,6 +359,11 @@ func (ev *keyEval) expr(e ast.Expr) (bool, bool) {
 					m.fail("nil comparison of a non-projection %s", types.ExprString(e))
 					return false, false
 				}
+				if pr.canon == "_" {
+					// a nil test of the node itself: the keys order nodes, and the slices the
+					// property speaks about hold nodes (S6 decides totality over constructed nodes)
+					return x.Op == token.NEQ, true
+				}
 				m.note(pr.canon, projNil)
 				isNil := ev.val(pr) == 0
 				if x.Op == token.EQL {
@@ -555,7 +561,84 @@ func (ev *keyEval) stmts(list []ast.Stmt) (bool, bool, bool) {
 	return false, false, true
 }
 
+// c19PortField decides whether a field of RawNode holds the node's port number:
+// every composite literal of RawNode stores into it a value that depends on the
+// Port of a resolved net.TCPAddr or on a number parsed from text.
+var c19PortField func(field string) (bool, string)
+
+func c19InitPortField(l *core.Ledger, r *rt) {
+	c19PortField = func(field string) (bool, string) {
+		nlit := 0
+		for _, f := range allFuncs(l.Prog, r.pkg) {
+			var lits []*ssa.Alloc
+			sx.AllInstrs(f, func(_ sx.Node, in ssa.Instruction) {
+				if al, ok := in.(*ssa.Alloc); ok && isNamed(al.Type(), core.RootModule, "RawNode") && al.Heap {
+					lits = append(lits, al)
+				}
+			})
+			for _, al := range lits {
+				nlit++
+				var val ssa.Value
+				for _, ref := range *al.Referrers() {
+					if fa, ok := ref.(*ssa.FieldAddr); ok {
+						if fl := fieldOf(fa.X.Type(), fa.Field); fl != nil && fl.Name() == field {
+							for _, r2 := range *fa.Referrers() {
+								if st, ok := r2.(*ssa.Store); ok && st.Addr == ssa.Value(fa) {
+									val = st.Val
+								}
+							}
+						}
+					}
+				}
+				if val == nil {
+					return false, fnKey(f) + " builds a node without filling it"
+				}
+				okDep := false
+				seen := map[ssa.Value]bool{}
+				var walk func(v ssa.Value, d int)
+				walk = func(v ssa.Value, d int) {
+					if v == nil || seen[v] || d > 40 {
+						return
+					}
+					seen[v] = true
+					switch x := v.(type) {
+					case *ssa.FieldAddr:
+						if fl := fieldOf(x.X.Type(), x.Field); fl != nil && fl.Name() == "Port" && isNamed(x.X.Type(), "net", "TCPAddr") {
+							okDep = true
+						}
+					case *ssa.Field:
+						if fl := fieldOf(x.X.Type(), x.Field); fl != nil && fl.Name() == "Port" && isNamed(x.X.Type(), "net", "TCPAddr") {
+							okDep = true
+						}
+					case *ssa.Call:
+						name := sx.StaticCalleeName(&x.Call)
+						if strings.HasPrefix(name, "strconv.") {
+							okDep = true
+						}
+					}
+					if in, ok := v.(ssa.Instruction); ok {
+						for _, op := range in.Operands(nil) {
+							if op != nil && *op != nil {
+								walk(*op, d+1)
+							}
+						}
+					}
+				}
+				walk(val, 0)
+				if !okDep {
+					return false, fnKey(f) + " fills it with a value that does not come from the port of the resolved address"
+				}
+			}
+		}
+		if nlit == 0 {
+			return false, "no place that builds a node was found"
+		}
+		return true, ""
+	}
+}
+
 func c19S1(l *core.Ledger, r *rt) {
+	c19InitPortField(l, r)
 	keys := sortKeys(r)
 	if !l.Floor("C19-S1", len(keys), 3, "provided sort keys (ID, Port, LastNodeError)") {
 		return
@@ -712,6 +795,16 @@ func c19S4(l *core.Ledger, k keyDef, m *keyModel, states []absElem, less func(a,
 			return
 		}
 		if k.name == "Port" && !strings.Contains(canon, "Port") && !strings.Contains(strings.ToLower(canon), "addr") {
+			// a field of the node that caches the port number: every place that builds a node must fill it
+			// from the port of the resolved address
+			if strings.HasPrefix(canon, "_.") && c19PortField != nil {
+				if ok, why := c19PortField(strings.TrimPrefix(canon, "_.")); ok {
+					l.Check(dirOK, "C19-S4", construct, k.pos, "increasing order over the node's field "+canon+", which every constructor fills from the port of the resolved address", "the "+k.name+" key is documented as increasing, but a node with the smaller "+canon+" is not ordered first")
+				} else {
+					l.Bad("C19-S4", construct, k.pos, "the Port key compares the node's field "+canon+", and "+why+": such nodes all compare equal (port 0) while Port() reports their real port")
+				}
+				return
+			}
 			l.Bad("C19-S4", construct, k.pos, "the Port key does not look at the node's port: compares "+canon)
 			return
 		}
@@ -1132,6 +1225,52 @@ func c19S2AllKeysForm(l *core.Ledger, fn *ssa.Function, ms *ssa.Parameter, key s
 }
 
 // ---------------------------------------------------------------- S3
+
+// c19S10: a key list built from closures made in a loop. Under the loop-variable
+// semantics of Go < 1.22 (the module's go directive decides) the variable of a
+// range/for loop is one variable for all iterations: closures that capture it
+// and outlive their iteration all see the last value.
+func c19S10(l *core.Ledger, r *rt) {
+	l.Rule("C19-S10", "the sorter's key list holds the keys it was given, in order: a function that fills MultiSorter.less with function literals made in a loop gives each literal variables of its own (no literal captures a variable that is allocated once outside the loop and overwritten by later iterations - which is what a loop variable is when the module's go directive is below 1.22)")
+	n := 0
+	for _, f := range allFuncs(l.Prog, r.pkg) {
+		writesLess := false
+		sx.AllInstrs(f, func(_ sx.Node, in ssa.Instruction) {
+			if st, ok := in.(*ssa.Store); ok {
+				if base, ok := fieldAddrOf(st.Addr, "less"); ok && isNamed(base.Type(), core.RootModule, "MultiSorter") {
+					writesLess = true
+				}
+			}
+		})
+		if !writesLess {
+			continue
+		}
+		n++
+		bad := ""
+		var pos token.Pos = f.Pos()
+		sx.AllInstrs(f, func(nd sx.Node, in ssa.Instruction) {
+			mc, ok := in.(*ssa.MakeClosure)
+			if !ok || !sx.InLoop(nd) {
+				return
+			}
+			for _, b := range mc.Bindings {
+				al, ok := b.(*ssa.Alloc)
+				if !ok || sx.InLoop(sx.NodeOf(al)) {
+					continue
+				}
+				for _, ref := range *al.Referrers() {
+					if st, ok := ref.(*ssa.Store); ok && st.Addr == ssa.Value(al) && sx.InLoop(sx.NodeOf(st)) {
+						bad = al.Comment
+						pos = mc.Pos()
+					}
+				}
+			}
+		})
+		l.Check(bad == "", "C19-S10", fnKey(f)+"/key-closures", pos, "no key wrapper shares a loop variable",
+			"the function literals stored as the sorter's keys capture the variable '"+bad+"', which is allocated once and overwritten by every iteration (the module's go directive selects the pre-1.22 loop-variable semantics): every wrapper calls the last key, OrderedBy(k1, ..., kn) orders by kn alone and ties under kn are never broken by the other keys")
+	}
+	l.Floor("C19-S10", n, 1, "functions that fill MultiSorter.less")
+}
 
 func c19S3(l *core.Ledger, r *rt) {
 	// who may write MultiSorter.nodes
